@@ -403,3 +403,129 @@ pub fn op_strategy(p: &Profile) -> BoxedStrategy<Op> {
 pub fn history_strategy(p: &Profile) -> BoxedStrategy<History> {
     vec(op_strategy(p), p.min_ops..=p.max_ops).prop_map(|ops| History { ops, plan: Plan::default() }).boxed()
 }
+
+// ------------------------------------------------------------------------------------------------
+// Byte decoder for the coverage-guided fuzz target: bytes -> Unstructured -> the same IR.
+
+pub mod bytes {
+    use super::*;
+    use arbitrary::Unstructured;
+
+    fn text(u: &mut Unstructured, max: usize) -> String {
+        let len = match u.int_in_range(0u8..=9).unwrap_or(0) {
+            0..=3 => u.int_in_range(0..=15usize).unwrap_or(0),
+            4 => 16,
+            5..=7 => u.int_in_range(17..=33usize).unwrap_or(17),
+            8 => u.int_in_range(34..=100usize).unwrap_or(34),
+            _ => u.int_in_range(0..=max).unwrap_or(0),
+        }
+        .min(max);
+        let nsel = u.int_in_range(0..=4usize).unwrap_or(0);
+        let sel: Vec<u8> = (0..nsel).map(|_| u.arbitrary::<u8>().unwrap_or(0)).collect();
+        build_text(len, &sel, u.arbitrary().unwrap_or(false))
+    }
+
+    fn ch(u: &mut Unstructured) -> char {
+        ALPHA[u.int_in_range(0..=ALPHA.len() - 1).unwrap_or(0)]
+    }
+
+    fn idx(u: &mut Unstructured) -> Idx {
+        match u.int_in_range(0u8..=9).unwrap_or(0) {
+            0..=4 => Idx::Boundary(u.arbitrary().unwrap_or(0)),
+            5..=6 => Idx::Raw(u.int_in_range(0..=40usize).unwrap_or(0)),
+            7..=8 => Idx::LenPlus(u.int_in_range(-3i8..=2).unwrap_or(0)),
+            _ => Idx::Raw(*u.choose(&[usize::MAX, 1 << 56, isize::MAX as usize]).unwrap_or(&usize::MAX)),
+        }
+    }
+
+    fn size(u: &mut Unstructured, grid: &[usize]) -> Size {
+        match u.int_in_range(0u8..=11).unwrap_or(0) {
+            0..=3 => Size::Abs(u.int_in_range(0..=64usize).unwrap_or(0)),
+            4 => Size::Abs(*u.choose(&[15usize, 16, 17, 31, 32, 33, 100, 256, 4096]).unwrap_or(&16)),
+            5..=6 => Size::CapPlus(u.int_in_range(-2i16..=2).unwrap_or(0)),
+            7 => Size::LenPlus(u.int_in_range(-2i16..=2).unwrap_or(0)),
+            8..=9 => Size::RoomPlus(u.int_in_range(-2i16..=2).unwrap_or(0)),
+            10 => Size::Abs(grid[u.int_in_range(0..=grid.len() - 1).unwrap_or(0)]),
+            _ => Size::MaxMinusLenMinus(u.int_in_range(0u8..=2).unwrap_or(0)),
+        }
+    }
+
+    fn text_arg(u: &mut Unstructured) -> Text {
+        if u.ratio(1u8, 5u8).unwrap_or(false) {
+            Text::Fill { delta: u.int_in_range(-2i16..=2).unwrap_or(0), unit: 'x' }
+        } else {
+            Text::Lit(text(u, 200))
+        }
+    }
+
+    fn iter(u: &mut Unstructured, grid: &[usize]) -> IterSpec {
+        let kinds = [IterKind::Char, IterKind::RefChar, IterKind::Str, IterKind::String, IterKind::BoxStr, IterKind::CowB, IterKind::CowO, IterKind::Lean, IterKind::LeanSlots];
+        let kind = *u.choose(&kinds).unwrap_or(&IterKind::Char);
+        let n = u.int_in_range(0..=4usize).unwrap_or(0);
+        let items = if kind == IterKind::LeanSlots { vec![] } else { (0..n).map(|_| text(u, 40)).collect() };
+        let slots = if kind == IterKind::LeanSlots { (0..n.min(3)).map(|_| u.int_in_range(0..=SLOTS as u8 - 1).unwrap_or(0)).collect() } else { vec![] };
+        let hint = match u.int_in_range(0u8..=5).unwrap_or(0) {
+            0 => Some(u.int_in_range(0..=64usize).unwrap_or(0)),
+            1 => Some(grid[u.int_in_range(0..=grid.len() - 1).unwrap_or(0)]),
+            _ => None,
+        };
+        let panic_at = if u.ratio(1u8, 4u8).unwrap_or(false) { Some(u.int_in_range(0u16..=8).unwrap_or(0)) } else { None };
+        IterSpec { kind, items, slots, hint, panic_at }
+    }
+
+    fn pieces(u: &mut Unstructured) -> Pieces {
+        let n = u.int_in_range(0..=4usize).unwrap_or(0);
+        let pieces = (0..n).map(|_| text(u, 40)).collect();
+        let (err_at, panic_at) = match u.int_in_range(0u8..=5).unwrap_or(0) {
+            0 => (Some(u.int_in_range(0u16..=4).unwrap_or(0)), None),
+            1 => (None, Some(u.int_in_range(0u16..=4).unwrap_or(0))),
+            _ => (None, None),
+        };
+        Pieces { pieces, err_at, panic_at }
+    }
+
+    /// Decodes a whole history (up to `max_ops` operations) from raw fuzz input.
+    pub fn decode_history(data: &[u8], max_ops: usize) -> History {
+        let grid = size_grid();
+        let mut u = Unstructured::new(data);
+        let mut ops = Vec::new();
+        while !u.is_empty() && ops.len() < max_ops {
+            let slot = u.int_in_range(0..=SLOTS as u8 - 1).unwrap_or(0);
+            let other = u.int_in_range(0..=SLOTS as u8 - 1).unwrap_or(0);
+            let try_ = u.arbitrary().unwrap_or(false);
+            let vias = [Via::Str, Via::String, Via::RefString, Via::BoxStr, Via::CowB, Via::CowO, Via::Parse, Via::Utf8, Via::Utf8Unchecked, Via::ToLeanString, Via::ToLeanStr, Via::ToLeanCow, Via::ToLeanBox];
+            let op = match u.int_in_range(0u8..=39).unwrap_or(0) {
+                0 => Op::New { slot },
+                1..=4 => Op::FromText { slot, via: *u.choose(&vias).unwrap_or(&Via::Str), text: text(&mut u, 300) },
+                5 => Op::FromChar { slot, ch: ch(&mut u), via: *u.choose(&[CharVia::From, CharVia::ToLean, CharVia::TryToLean]).unwrap_or(&CharVia::From) },
+                6 => Op::FromStatic { slot, k: u.arbitrary().unwrap_or(0) },
+                7 => Op::WithCapacity { slot, n: size(&mut u, &grid), try_ },
+                8 => Op::Collect { slot, it: iter(&mut u, &grid) },
+                9 => Op::Display { slot, d: pieces(&mut u), try_ },
+                10..=13 => Op::Clone { slot, from: other, via: *u.choose(&[CloneVia::Clone, CloneVia::FromRef, CloneVia::ToLean, CloneVia::TryToLean]).unwrap_or(&CloneVia::Clone) },
+                14..=15 => Op::CloneFrom { slot, from: other },
+                16..=17 => Op::Drop { slot },
+                18 => Op::Take { slot, from: other },
+                19 => Op::Swap { a: slot, b: other },
+                20 => Op::OptionRoundTrip { slot },
+                21..=22 => Op::Push { slot, ch: ch(&mut u), try_ },
+                23..=24 => Op::PushStr { slot, text: text_arg(&mut u), try_ },
+                25 => Op::Pop { slot, try_ },
+                26 => Op::Remove { slot, idx: idx(&mut u), try_ },
+                27 => Op::Insert { slot, idx: idx(&mut u), ch: ch(&mut u), try_ },
+                28 => Op::InsertStr { slot, idx: idx(&mut u), text: text_arg(&mut u), try_ },
+                29..=30 => Op::Truncate { slot, n: idx(&mut u), try_ },
+                31 => Op::Clear { slot },
+                32 => Op::Retain { slot, r: RetainSpec { mask: u.arbitrary().unwrap_or(0), panic_at: if u.ratio(1u8, 4u8).unwrap_or(false) { Some(u.int_in_range(0u16..=20).unwrap_or(0)) } else { None } }, try_ },
+                33..=34 => Op::Reserve { slot, n: size(&mut u, &grid), try_ },
+                35 => Op::ShrinkTo { slot, n: size(&mut u, &grid), try_ },
+                36 => Op::ShrinkToFit { slot, try_ },
+                37 => Op::Extend { slot, it: iter(&mut u, &grid) },
+                38 => Op::Write { slot, d: pieces(&mut u) },
+                _ => Op::Compare { a: slot, b: other },
+            };
+            ops.push(op);
+        }
+        History { ops, plan: Plan::default() }
+    }
+}
